@@ -81,6 +81,23 @@ def handle (op : String) (args : List String) : String :=
       | .error (.panic site) => toks ++ " !panic " ++ site
       | .error .outOfFuel => toks ++ " !model-out-of-fuel"
     | _, _ => "bad-request"
+  | "C10.num", nh :: dh :: more =>
+    -- a numeral followed by `d<hex>`, optionally preceded by `p<hex>`: the token line of `C10.lex t1i0b0` on
+    -- prefix ++ numeral ++ follower
+    let pre : Option (List UInt8) := match more with
+      | [] => some []
+      | [ph] => unhex? (String.ofList (ph.toList.drop 1))
+      | _ => none
+    match unhex? nh, unhex? (String.ofList (dh.toList.drop 1)), pre with
+    | some nb, some db, some pb =>
+      let r := readAll (pb ++ nb ++ db) true true false
+      let toks := ";".intercalate (r.1.map showPTok)
+      match r.2 with
+      | .ok () => toks
+      | .error (.lexer reason off) => toks ++ " !err " ++ reason.name ++ " " ++ toString off
+      | .error (.panic site) => toks ++ " !panic " ++ site
+      | .error .outOfFuel => toks ++ " !model-out-of-fuel"
+    | _, _, _ => "bad-request"
   | "C10.fmt", [tgt, kind, bitsHex, disp] =>
     match Model.LitFormat.Kind.ofName kind, parseHexNat bitsHex with
     | some k, some bits =>
